@@ -138,3 +138,34 @@ def run_trace_validation(workdir, traces, timeout=900, name="b"):
     states = int(m.group(2)) if m else 0
     os.remove(tf)
     return verdicts, states, time.time() - t0
+
+
+def run_pair_validation(workdir, pairs, timeout=900, name="p"):
+    """judges pair documents with spec/CiwPair.tla; returns list of verdicts"""
+    copy_spec(workdir)
+    tf = os.path.join(workdir, name + ".pairs.ndjson")
+    of = os.path.join(workdir, name + ".out.ndjson")
+    with open(tf, "w") as f:
+        for t in pairs:
+            f.write(json.dumps({k: t[k] for k in ("pid", "prop", "a", "b")}) + "\n")
+    if os.path.exists(of):
+        os.remove(of)
+    with open(os.path.join(workdir, "CiwPair.cfg"), "w") as f:
+        f.write("SPECIFICATION Spec\nCHECK_DEADLOCK FALSE\n")
+    env = dict(os.environ, TRACE_FILE=tf, OUT_FILE=of)
+    args = ["-workers", "1", "-metadir", os.path.join(workdir, "meta_" + name), "-noGenerateSpecTE",
+            "-config", "CiwPair.cfg", "CiwPair.tla"]
+    p = subprocess.run(java_cmd("tlc2.TLC", args, heap="3g"), cwd=workdir, capture_output=True, text=True,
+                       timeout=timeout, env=env)
+    out = p.stdout + p.stderr
+    shutil.rmtree(os.path.join(workdir, "meta_" + name), ignore_errors=True)
+    if not os.path.exists(of):
+        raise RuntimeError("pair validation produced no verdicts:\n" + out[-3000:])
+    verdicts = [json.loads(l) for l in open(of)]
+    if len(verdicts) != len(pairs):
+        raise RuntimeError("verdict count mismatch\n" + out[-2000:])
+    m = None
+    for m in TLC_STATES.finditer(out):
+        pass
+    os.remove(tf)
+    return verdicts, (int(m.group(2)) if m else 0)
